@@ -237,9 +237,14 @@ def extract(ctx):
         if um:
             m = type("M", (), {"group": lambda self, i, _m=m, _b=um.group(1): _b if i == 3 else _m.group(i)})()
         inl = lambda e: re.sub(r"\b[A-Za-z_]\w*\b", lambda t: "(" + env[t.group(0)] + ")" if t.group(0) in env else t.group(0), e)
+        # a NAMED return value (`returns (uint numSignaturesRequiredForQuorum)`): assigning to it as the last statement is `return expr`
+        hm = re.search(r"function\s+quorum\s*\([^)]*\)[^{]*?returns\s*\(\s*uint(\d*)\s+(\w+)\s*\)[^{]*\{", sol, re.S)
+        rname = hm.group(2) if hm else None
         for st in [x.strip() for x in m.group(3).split(";") if x.strip()]:
             d = re.match(r"^uint(\d*)\s+(\w+)\s*=\s*(.+)$", st, re.S)
             r_ = re.match(r"^return\s+(.+)$", st, re.S)
+            if not r_ and rname:
+                r_ = re.match(r"^%s\s*=\s*(.+)$" % re.escape(rname), st, re.S)
             if expr is not None:
                 ok = False
             elif d:
@@ -455,7 +460,10 @@ def run(ctx):
     c19.run_gate_for(ctx, c19.C07_CLAUSES)
     ctx.cov["rule"] = rule + (" | explorer gate: verifyVAA / Push with quorum-1, quorum and surplus signatures for every set size; after overtaken "
                               "(overlapping / repeated) and far-ahead guardian-set fetches, VAAs naming set i with exactly a quorum of set j's guardians, "
-                              "sizes on growing and shrinking ladders")
+                              "sizes on growing and shrinking ladders; right after a set change (sets sharing their low positions with the "
+                              "predecessor) VAAs naming the new set with exactly a quorum of a STORED set's guardians, pushed while the on-demand "
+                              "lookup of the named set fails at the chain (RPC error / 503 / undecodable / empty / no dial, once or repeatedly, any "
+                              "request of the range) and again after it recovered: the threshold applied must be that of the set the VAA names")
     if dist is not None:
         ctx.cov["generator_distribution"] = dist
     ctx.assumptions += ["the contracts are never executed here (no solc / no Alephium VM): their formulas are tied by source translation only"]
